@@ -275,8 +275,10 @@ class Builder:
         sid = c['sid']
         if sid not in self.specs:
             self.specs[sid] = self.spec(c['spec'], ())
+            register_baseline(self.specs[sid])
         if c.get('via') == 'spec' and sid not in self.specobjs:
             self.specobjs[sid] = Spec(self.specs[sid])
+            register_baseline(self.specobjs[sid])
         return BuiltCall(build_value(c['t']), self.specs[sid], {k: build_value(v) for k, v in c['sc']}, c,
                          self.specobjs.get(sid) if c.get('via') == 'spec' else None)
 
@@ -359,9 +361,70 @@ def strip_pred(out):
 
 
 # ---- deep snapshots: structure and identity --------------------------------------------------
+# attribute names every spec object had when it was built: id(obj) -> (obj, names).  A private
+# attribute ('_...') that appears on such an object only later is a lazily filled cache of the
+# object - not part of the spec's value - and is left out of the comparison, together with
+# whatever hangs below it.  Attributes that existed at construction, public attributes, repr(spec)
+# and the identity / structure of contained containers are always compared.
+_BASELINE = {}
+
+
+def _attr_items(o):
+    attrs = []
+    d = getattr(o, '__dict__', None)
+    if isinstance(d, dict):
+        attrs.extend(sorted(d.items(), key=lambda kv: str(kv[0])))
+    for cls in type(o).__mro__:
+        for s in getattr(cls, '__slots__', ()) or ():
+            if isinstance(s, str) and hasattr(o, s) and s not in ('__dict__', '__weakref__'):
+                attrs.append((s, getattr(o, s)))
+    if type(o).__name__ == 'TType':
+        attrs.append(('__ops__', o.__ops__))
+    return attrs
+
+
+def _is_leaf(o):
+    return (o is None or isinstance(o, (int, str, float, bool, bytes, set, frozenset, Ctx))
+            or (callable(o) and not hasattr(o, 'glomit') and not isinstance(o, (OpGate,))))
+
+
+def register_baseline(o, depth=0):
+    """record the attribute names of every object of a freshly built spec"""
+    if _is_leaf(o) or depth > 40:
+        return
+    t = type(o)
+    if t in (list, tuple):
+        if id(o) in _BASELINE:
+            return
+        _BASELINE[id(o)] = (o, None)
+        for x in o:
+            register_baseline(x, depth + 1)
+    elif t is dict:
+        if id(o) in _BASELINE:
+            return
+        _BASELINE[id(o)] = (o, None)
+        for k, v in o.items():
+            register_baseline(k, depth + 1)
+            register_baseline(v, depth + 1)
+    else:
+        if id(o) in _BASELINE:
+            return
+        items = _attr_items(o)
+        _BASELINE[id(o)] = (o, frozenset(str(k) for k, _ in items))
+        for _, v in items:
+            register_baseline(v, depth + 1)
+
+
+def _late_private(o, name):
+    base = _BASELINE.get(id(o))
+    return (base is not None and base[0] is o and base[1] is not None
+            and name.startswith('_') and name not in base[1])
+
+
 def snapshot(o, seen=None, depth=0):
     """nested tuples describing the object graph reachable from o: (type, id, contents);
-    scalars by value.  Two snapshots are equal iff structure, values and identities agree."""
+    scalars by value.  Two snapshots are equal iff structure, values and identities agree
+    (modulo private attributes that spec objects acquired after construction, see _BASELINE)."""
     if seen is None:
         seen = {}
     if o is None or isinstance(o, (int, str, float, bool, bytes)):
@@ -383,16 +446,7 @@ def snapshot(o, seen=None, depth=0):
     if isinstance(o, Ctx):
         return ('ctx', id(o))
     # spec objects / user objects: attribute graph (__dict__ and __slots__)
-    attrs = []
-    d = getattr(o, '__dict__', None)
-    if isinstance(d, dict):
-        attrs.extend(sorted(d.items(), key=lambda kv: str(kv[0])))
-    for cls in type(o).__mro__:
-        for s in getattr(cls, '__slots__', ()) or ():
-            if isinstance(s, str) and hasattr(o, s) and s not in ('__dict__', '__weakref__'):
-                attrs.append((s, getattr(o, s)))
-    if t.__name__ == 'TType':
-        attrs.append(('__ops__', o.__ops__))
+    attrs = [(k, v) for k, v in _attr_items(o) if not _late_private(o, str(k))]
     return ('obj', t.__name__, id(o), tuple((str(k), snapshot(v, seen, depth + 1)) for k, v in attrs))
 
 
